@@ -77,7 +77,8 @@ def run_y0(wd, items: list[dict], n_orders: int, semantic: bool, tag: str) -> li
         if not sh:
             continue
         f = wd / f"{tag}-in{i}.json"
-        f.write_text(json.dumps([{"g": it["g"], "gid": it["gid"], "qs": [q[:3] for q in it["qs"]]} for it in sh]))
+        f.write_text(json.dumps([{"g": it["g"], "gid": it["gid"], "qs": [q[:3] for q in it["qs"]],
+                                  **({"orders": it["orders"]} if "orders" in it else {})} for it in sh]))
         jobs.append((f, wd / f"{tag}-out{i}.json", i))
 
     def one(job):
